@@ -132,13 +132,17 @@ def cases(draw):
         params["perturb_seed"] = draw(st.integers(0, 10000))
     box = boxes(name, params)
     x = [draw(coord(name, params, k, lo, hi)) for k, (lo, hi) in enumerate(box)]
-    xtype = draw(st.sampled_from(["float", "float", "np", "int"]))
+    # "array": the point as a 1-D float64 NumPy array - not the documented container (a list), but accepted by every
+    # objective of the unchanged library; an exception on it is inconclusive, a wrong or impure value is not
+    xtype = draw(st.sampled_from(["float", "float", "float", "np", "np", "int", "int", "array"]))
     if xtype == "int":
         x = [float(round(v)) if box[k][0] <= round(v) <= box[k][1] else v for k, v in enumerate(x)]
     return {"obj": name, "params": params, "x": x, "xtype": xtype}
 
 
 def _typed(x, xtype):
+    if xtype == "array":
+        return np.array([float(v) for v in x], dtype=float)
     if xtype == "np":
         return [np.float64(v) for v in x]
     if xtype == "int":
@@ -160,6 +164,8 @@ def check_point(case):
         try:
             fx = obj.f(x)
         except Exception as e:  # noqa: BLE001 - evaluation inside the documented box must not raise
+            if case["xtype"] == "array":
+                return Outcome(aborted="array-rejected:" + type(e).__name__, classes=classes)
             return Outcome(violation={"clause": "raises", "msg": "%s(%r).f(%r): %s: %s" % (name, params, x, type(e).__name__, e),
                                       "round": None}, classes=classes)
         fmax = obj.fmax
@@ -344,3 +350,7 @@ def run_shard(ctx):
     ctx.enumerate("attain", attain_cases(), check_case)
     ctx.enumerate("dimension", dimension_cases(), check_case)
     ctx.drive("points", cases(), check_case, ctx.budget(240000, 3000000), use_target=True)
+    ctx.drive_fuzz("points", 160000)  # thorough tier: coverage-guided campaign over the same generator and oracle
+
+
+FUZZ = {"points": (lambda tier: cases(), check_case)}
